@@ -105,7 +105,7 @@ func (w *World) mergeOnce(ins []*SegH, drops []*roaring.Bitmap, parts MergeParts
 	sr := &statsReporter{}
 	mode := zap.DefaultChunkMode
 	maps, size, err := plugin.Merge(segs, drops, p, nil, sr)
-	r.ev("merge %s -> err=%v size=%d", strings.Join(names, " + "), err != nil, size)
+	r.ev("merge %s -> err=%v", strings.Join(names, " + "), err != nil) // sizes are not logged: they vary with zapx's map-ordered section layout
 	if err != nil {
 		r.fail("merge-error", "Merge", "Merge failed without any fault injected (%s): %v", strings.Join(names, " + "), err)
 	}
